@@ -470,6 +470,40 @@ impl Check for C13 {
         ] {
             cases.push(Case::new(src.to_string(), T_REF, "targets or literal items that read what is being bound".to_string()));
         }
+        // patterns nest: an object pattern inside an object or list pattern, with collects at
+        // both levels; the collected rest of each level is that level's remainder
+        for pat in [
+            "{\"pos\": {x, y}, ..rest}",
+            "{\"pos\": {x, ..inner}, ..rest}",
+            "{\"pos\": {x, y}, \"size\": s, ..rest}",
+            "{\"owner\": {\"name\": n}, ..rest}",
+            "{\"pos\": {x, ..inner}, \"owner\": {\"name\": n, ..more}, ..rest}",
+            "{\"l\": [{x}, ..tail], ..rest}",
+            "[{x, ..inner}, ..tail]",
+            "[{\"pos\": {y, ..deep}, ..mid}, ..tail]",
+            "{\"pos\": {\"x\": _, ..inner}, .._}",
+        ] {
+            for (src, name) in [
+                ("{\"pos\": {\"x\": 1, \"y\": 2}, \"size\": 3, \"owner\": {\"name\": \"Jo\", \"age\": 4}, \"l\": [{\"x\": 5, \"z\": 6}, 7]}", "object"),
+                ("[{\"x\": 1, \"pos\": {\"y\": 2, \"w\": 3}, \"k\": 4}, 5, 6]", "list"),
+            ] {
+                if (name == "list") != pat.starts_with('[') {
+                    continue;
+                }
+                let names: Vec<&str> = ["x", "y", "s", "n", "inner", "more", "rest", "tail", "deep", "mid"].iter().copied().filter(|n| {
+                    let b = pat.as_bytes();
+                    pat.match_indices(n).any(|(i, _)| {
+                        let before = if i == 0 { b' ' } else { b[i - 1] };
+                        let after = *b.get(i + n.len()).unwrap_or(&b' ');
+                        !(before as char).is_ascii_alphanumeric() && before != b'"' && !(after as char).is_ascii_alphanumeric() && after != b'"'
+                    })
+                }).collect();
+                let prints: String = names.iter().map(|n| format!("print({})\n", n)).collect();
+                cases.push(Case::new(format!("S := {}\nprint(\"pre\")\n{} := S\n{}", src, pat, prints), T_REF, format!("nested pattern {} on an {}", pat, name)));
+                cases.push(Case::new(format!("S := {}\nprint(\"pre\")\nfn f({}) {{\n{}}}\nf(S)\n", src, pat, prints), T_REF, format!("nested parameter pattern {} on an {}", pat, name)));
+                cases.push(Case::new(format!("S := {}\nprint(\"pre\")\nfor [_, {}] in [S] {{\n{}}}\n", src, pat, prints), T_REF, format!("nested for pattern {} on an {}", pat, name)));
+            }
+        }
         for prog in super::evalorder::SELF_TARGET_PROGRAMS {
             cases.push(Case::new(prog.to_string(), T_REF, "targets, indices or bounds that reach the container being assigned".to_string()));
         }
